@@ -39,7 +39,7 @@ class Result:
         # renderer could not resolve, a value the evaluator could not compute, a lambda or a file-local helper standing where
         # a tabulated value is expected) is not positive evidence.  Rules that have read everything they report pass sure=True.
         import re as _re
-        if not sure and _re.search(r'\?[A-Z]\w+(?:Expr|Stmt|Operator)\b|\bNone\b|\(anonymous namespace\)::\w+\(|local:__\w+', detail or ''):
+        if not sure and _re.search(r'\?[A-Z]\w+(?:Expr|Stmt|Operator)\b|\bNone\b|\(anonymous namespace\)::\w+\(|local:__\w+|\S \? \S.* : \S', '%s %s' % (detail or '', instance or '')):
             return self.ob(rule, instance, where, UNDEC, (detail or '') + ' [the report contains a part the rule could not read]', **kw)
         return self.ob(rule, instance, where, VIOL, detail, **kw)
 
